@@ -215,6 +215,9 @@ def check(ctx):
     w4, _ = sconnp.run_impl(ctx, [wc], tag="known407")
     if w4 and "connect-407-no-handover" in known and len(sconnp.tx_dumps(w4[0])) == 3:
         ctx.known.append("id=connect-407-no-handover witness still exhibits it (+%d generated histories): %s" % (n407, known["connect-407-no-handover"]["what"][:200]))
+    elif w4 and "connect-407-no-handover" not in known and len(sconnp.tx_dumps(w4[0])) != 2:
+        # the finding is recorded as fixed (/repo b681751): its witness is a regression case
+        vf.violation(ctx, "regression-407", {"kind": "fixed-finding-regressed", "finding": "connect-407-no-handover", "case": wc, "transactions": len(sconnp.tx_dumps(w4[0])), "expected": 2})
     mm = vf.first_mismatches(impl, model, limit=20) if not crash else []
     ctx.cov["suites"]["S-connp"]["mismatches"] = len(mm)
     ctx.cov["suites"]["S-connp"]["pairing_failures"] = nbad
